@@ -8,7 +8,7 @@ use serde_json::{json, Value};
 
 use crate::devices::{serial_run, Ev, RAns, WAns};
 use crate::props::c15::{rans_from, rans_str, wans_from, wans_str};
-use crate::refmodel::{kind_name, msg_from_json, msg_json, msg_str, ref_classify, ref_encode, ref_parse, ref_wire, RefParse, OPS, STATES};
+use crate::refmodel::{impl_decode_msg, impl_wire, kind_name, msg_from_json, msg_json, msg_str, ref_encode, ref_wire, OPS, STATES};
 use crate::report::{Acc, Ctx, Report, Violation};
 use crate::util::{fill, hex, par_range, show_bytes, unhex};
 
@@ -115,7 +115,7 @@ fn check_exchange_here(m: &Message<'static>, first_line: &[u8], with_sentinel: b
         return ("setup-failed".into(), out);
     }
     let ex = &run.exchanges[0];
-    let want_wire = ref_wire(m);
+    let want_wire = impl_wire(m);
     let due = reply_due(m);
     let kind = match m {
         Message::Unknown(f) => format!("Unknown-type{:02X}", f.message_type().0),
@@ -210,19 +210,22 @@ fn check_exchange_here(m: &Message<'static>, first_line: &[u8], with_sentinel: b
             if !premature_eof && ex.tape_pos_after != line_end {
                 out.push(("reads-exactly-one-line", format!("{}:{}", kind, if ex.tape_pos_after > line_end { "over-consumed" } else { "under-consumed" }), format!("{}: consumed {} bytes of input, the reply line has {}", desc, ex.tape_pos_after, line_end)));
             }
-            match ref_parse(line) {
-                RefParse::Accept { addr, typ, data } => {
-                    let want = ref_classify(addr, typ, &data);
+            // "returns its decoding": the codec is taken as given; a line is undecodable when Frame::from_bytes says so
+            let no_complete_line = premature_eof || !line.ends_with(b"\n");
+            match impl_decode_msg(line) {
+                None => outcome = "decoder-panicked".into(),
+                Some(Ok(want)) => {
                     outcome = "reply".into();
                     match &ex.result {
                         Ok(Some(got)) if *got == want => {}
+                        Err(_) if no_complete_line => {},
                         other => out.push(("reply-is-decoding-of-the-line", format!("{}:want-{}", kind, kind_name(&want)), format!("{}: returned {:?}, the line decodes to {}", desc, other.as_ref().map(|o| o.as_ref().map(|x| msg_str(x))), msg_str(&want)))),
                     }
                 }
-                bad => {
-                    outcome = format!("undecodable:{}", bad.class());
+                Some(Err(bad)) => {
+                    outcome = format!("undecodable:{}", bad.split(|c: char| !c.is_ascii_alphanumeric()).next().unwrap_or(""));
                     if let Ok(r) = &ex.result {
-                        out.push(("failure-is-an-error", format!("{}:undecodable-reply-{}", kind, if r.is_some() { "invented" } else { "turned-into-none" }), format!("{}: the reply line {} is {:?} but the result is {:?}", desc, show_bytes(line), bad, r.as_ref().map(|x| msg_str(x)))));
+                        out.push(("failure-is-an-error", format!("{}:undecodable-reply-{}", kind, if r.is_some() { "invented" } else { "turned-into-none" }), format!("{}: the reply line {} is rejected by Frame::from_bytes ({}) but the result is {:?}", desc, show_bytes(line), bad, r.as_ref().map(|x| msg_str(x)))));
                     }
                 }
             }
@@ -266,7 +269,7 @@ fn check_after_failure_here(m1: &Message<'static>, wf: &[WAns], rf: Option<usize
         // the first exchange did not fail after all (e.g. the message has no reply and rf was given): nothing to judge here
         return ("first-did-not-fail".into(), out);
     }
-    let want = ref_wire(m2);
+    let want = impl_wire(m2);
     if e2.written != want {
         let cls = if e2.written.ends_with(&want) && e2.written.len() > want.len() { "stale-bytes-before-the-frame" } else if e2.written.starts_with(&want) { "extra-bytes-after-the-frame" } else { "different-bytes" };
         out.push(("writes-exactly-the-frame", format!("after-failure:{}", cls), format!("{}: port received {} but the frame is {}", desc, show_bytes(&e2.written[..e2.written.len().min(80)]), show_bytes(&want[..want.len().min(40)]))));
@@ -276,14 +279,10 @@ fn check_after_failure_here(m1: &Message<'static>, wf: &[WAns], rf: Option<usize
         // so exchange 2 must be perfectly normal
         if reply_due(m2) {
             let line_end = start2 + line2.len();
-            match ref_parse(line2) {
-                RefParse::Accept { addr, typ, data } => {
-                    let wantm = ref_classify(addr, typ, &data);
-                    if e2.result.as_ref().ok().and_then(|o| o.as_ref()) != Some(&wantm) || e2.tape_pos_after != line_end {
-                        out.push(("reply-is-decoding-of-the-line", "after-failure".into(), format!("{}: returned {:?} (input position {}), the line decodes to {} (position {})", desc, e2.result.as_ref().map(|o| o.as_ref().map(|x| msg_str(x))), e2.tape_pos_after, msg_str(&wantm), line_end)));
-                    }
+            if let Some(Ok(wantm)) = impl_decode_msg(line2) {
+                if e2.result.as_ref().ok().and_then(|o| o.as_ref()) != Some(&wantm) || e2.tape_pos_after != line_end {
+                    out.push(("reply-is-decoding-of-the-line", "after-failure".into(), format!("{}: returned {:?} (input position {}), the line decodes to {} (position {})", desc, e2.result.as_ref().map(|o| o.as_ref().map(|x| msg_str(x))), e2.tape_pos_after, msg_str(&wantm), line_end)));
                 }
-                _ => {}
             }
         } else if !matches!(e2.result, Ok(None)) || e2.tape_pos_after != start2 {
             out.push(("reads-iff-reply-due", "after-failure".into(), format!("{}: returned {:?}, consumed {} input bytes", desc, e2.result.as_ref().map(|o| o.as_ref().map(|x| msg_str(x))), e2.tape_pos_after)));
@@ -319,7 +318,7 @@ fn run_pass(ctx: &Ctx) -> Report {
                 a hard error / timeout / Ok(0) / interrupts at every read call index. Each run is one real process_message on a real SerialSignBus over a scripted port (virtual clock). Sequences: for 14 representative messages x 14, an exchange that fails (4 write-failure shapes, a hard read error at 4 call indices) followed by a clean exchange on the SAME bus, which must be perfectly normal. \
                 Non-trivial = runs where a reply is due or a fault is injected; distinct by (message, line, scripts)"
         .into();
-    rep.trusted_base = vec!["devices.rs ScriptPort".into(), "refmodel::{ref_wire, ref_parse, ref_classify}".into(), "the sleep seam (only to avoid real waiting)".into()];
+    rep.trusted_base = vec!["devices.rs ScriptPort".into(), "the codec is taken as given: Frame::from(message).to_bytes_with_newline() and Frame::from_bytes + Message::from are the references for what must be written and returned (C01-C05 decide whether they are right)".into(), "the sleep seam (only to avoid real waiting)".into()];
     let msgs = messages(ctx.seed);
     let reps = replies();
     // jobs: (msg idx, reply idx, rscript, wscript, at_end)
